@@ -24,7 +24,8 @@ Record H15_parts (c : case) : Prop := {
   hp_procs : count_ok (st_res (c_step c)) RTasks = true;
   hp_vals : forallb (val_safe (st_res (c_step c))) res_keys_str = true;
   hp_batch : batch_keys_ok (c_be c) (c_batch c) = true;
-  hp_lsf : negb (backend_eqb (c_be c) Lsf) || lsf_dom c = true }.
+  hp_lsf : negb (backend_eqb (c_be c) Lsf) || lsf_dom c = true;
+  hp_flux : negb (backend_eqb (c_be c) Flux) || flux_dom c = true }.
 
 Lemma H15_unpack : forall c, H15 c = true -> H15_parts c.
 Proof.
